@@ -128,6 +128,7 @@ fn main() {
     "c16" => props::c16::run(&cfg),
     "c08" => props::c08::run(&cfg),
     "jsr" => props::jsr::run(&cfg),
+    "decl" => props::decl::run(&cfg),
     "c09" => props::c09::run(&cfg),
     "c12" => props::c12::run(&cfg),
     "c10" => props::c10::run(&cfg),
